@@ -2059,7 +2059,7 @@ Lemma run_foreach_head : forall pool funcs obj main L0 T i1 i2 idx ident rest M,
                    [OpIterationNext] ++ [OpJumpIfFalse; hi_byte T; lo_byte T] ++ rest) ->
   nthN pool i1 = Some (VStr idx) -> nthN pool i2 = Some (VStr ident) -> i1 < 65536 -> i2 < 65536 ->
   T < lenN main -> lenN main <= 65535 -> polls M = None ->
-  match stk M with
+  match drop_residue (menv M) (stk M) with
   | VIter it off :: s =>
       match iter_next o it off with
       | Ok (Some (x, k)) =>
@@ -2090,13 +2090,13 @@ Proof.
   set (M2 := push (push M (VStr idx)) (VStr ident)) in *.
   destruct (code_at_op1 _ _ _ _ A3) as [Hl3 Hb3].
   destruct (code_at_op3 _ _ _ _ _ _ A4) as (Hl4 & Hb4 & Ho4). rewrite hi_lo in Ho4 by lia.
-  destruct (stk M) as [|it0 s] eqn:Es.
+  assert (Hs2 : stk M2 = VStr ident :: VStr idx :: stk M) by reflexivity.
+  change (menv M) with (menv M2).
+  destruct (drop_residue (menv M2) (stk M)) as [|it0 s] eqn:Es.
   - eapply runs_then_fails; [exact R12|]. eapply fails_step. intro k.
-    eapply (exec_iter_next_short o pool funcs fns obj k main _ M2 (VStr ident) (VStr idx) Hl3 Hp Hb3).
-    unfold M2. cbn [push set_stk stk]. rewrite Es. reflexivity.
-  - assert (Hs2 : stk M2 = VStr ident :: VStr idx :: it0 :: s).
-    { unfold M2. cbn [push set_stk stk]. rewrite Es. reflexivity. }
-    pose proof (fun k => exec_iter_next o pool funcs fns obj k main _ M2 ident idx it0 s Hl3 Hp Hb3 Hs2) as St.
+    exact (exec_iter_next_short o pool funcs fns obj k main _ M2 (VStr ident) (VStr idx) (stk M) Hl3 Hp Hb3 Hs2 Es).
+  - pose proof (fun k => exec_iter_next o pool funcs fns obj k main _ M2 ident idx (stk M) it0 s Hl3 Hp Hb3 Hs2 Es) as St.
+    change (menv M2) with (menv M).
     destruct it0 as [z|fl|st|b| | |re|l|l|it off];
       try (cbn [iterable]; eapply runs_then_fails; [exact R12|]; eapply fails_step; exact St);
       try exact I.
@@ -2180,7 +2180,7 @@ Proof.
     destruct fuel as [|f]; [exact I|]. unfold ProgProofs.sp_x.
     change (sx o fns obj afs (S f) (EForeach idx ident v body) m) with
       (then_ (sx o fns obj afs f v m) (fun m1 =>
-        let e1 := env_push (menv m1) in
+        let e1 := env_push (menv m1) (lenN (stk m1)) in
         match stk m1 with
         | [] => XErr EInternal (set_menv m1 e1)
         | it :: s =>
@@ -2229,11 +2229,13 @@ Proof.
     assert (Hipe : ipe = T + 1) by (unfold ipe; clear - HT HL0; pos).
     clearbody ipe.
     (* the loop *)
-    assert (Loop : forall n, (n <= f)%nat -> forall it off m0, polls m0 = None ->
-              ok o pool funcs fns obj main L0 (set_stk m0 (VIter it off :: stk m0))
-                 (sforeach o fns obj afs n idx ident it off body m0) ipe).
-    { induction n as [|n IH]; intros Hle it off m0 Hp0; [exact I|].
+    assert (Loop : forall n, (n <= f)%nat -> forall M it off s, polls M = None ->
+              drop_residue (menv M) (stk M) = VIter it off :: s ->
+              ok o pool funcs fns obj main L0 M
+                 (sforeach o fns obj afs n idx ident it off body (set_stk M s)) ipe).
+    { induction n as [|n IH]; intros Hle M it off s Hp0 HdM; [exact I|].
       assert (HNn : Calls o fns afs pool funcs obj n) by (eapply Calls_le; [exact HN|lia]).
+      set (m0 := set_stk M s).
       change (sforeach o fns obj afs (S n) idx ident it off body m0) with
         (match iter_next o it off with
          | Err x => XErr x m0
@@ -2242,7 +2244,7 @@ Proof.
              let e2 := match idx with [] => e1 | _ => env_declare e1 idx k end in
              then_ (sblock o fns obj afs n body (mkM (VIter it (off + 1) :: stk m0) e2 (trace m0) (polls m0)))
                (fun m1 =>
-                  match stk m1 with
+                  match drop_residue (menv m1) (stk m1) with
                   | VIter it' off' :: s' => sforeach o fns obj afs n idx ident it' off' body (set_stk m1 s')
                   | other :: s' => if iterable other then XErr ENeedOracle (set_stk m1 s')
                                    else XErr EScript (set_stk m1 s')
@@ -2254,10 +2256,9 @@ Proof.
              | None => XErr EScript m0
              end
          end).
-      pose proof (run_foreach_head pool funcs obj main L0 T i1 i2 idx ident _
-                    (set_stk m0 (VIter it off :: stk m0))
+      pose proof (run_foreach_head pool funcs obj main L0 T i1 i2 idx ident _ M
                     (code_at_eq _ _ _ _ AH (eq_sym HL0)) Hp1 Hp2 Hi1 Hi2 HTm Hlen Hp0) as Hd.
-      cbn [set_stk stk menv trace polls] in Hd.
+      rewrite HdM in Hd. unfold m0. cbn [set_stk stk menv trace polls].
       destruct (iter_next o it off) as [[[x k]|]|x] eqn:En.
       - cbv zeta in Hd |- *. eapply ok_prepend; [exact Hd|].
         eapply ok_then.
@@ -2267,14 +2268,12 @@ Proof.
           * eapply (run_jump o pool funcs fns obj main _ L0); [at_pos B5|exact Hpm1|lia|exact Hlen].
           * pose proof (run_foreach_head pool funcs obj main L0 T i1 i2 idx ident _ m1
                           (code_at_eq _ _ _ _ AH (eq_sym HL0)) Hp1 Hp2 Hi1 Hi2 HTm Hlen Hpm1) as Hd1.
-            destruct (stk m1) as [|other s'] eqn:Es1.
+            destruct (drop_residue (menv m1) (stk m1)) as [|other s'] eqn:Es1.
             -- apply ok_err. exact Hd1.
             -- destruct other as [z|fl|st|b| | |re|l|l|it' off'];
                  try (cbn [iterable] in Hd1 |- *; first [exact I | apply ok_err; exact Hd1]).
-               replace m1 with (set_stk (set_stk m1 s') (VIter it' off' :: stk (set_stk m1 s'))).
-               2:{ destruct m1; cbn in *. subst. reflexivity. }
-               apply IH; [lia|exact Hpm1].
-      - destruct (env_pop (menv m0)) as [e1|].
+               apply IH; [lia|exact Hpm1|exact Es1].
+      - destruct (env_pop (menv M)) as [e1|].
         + apply ok_normal; [exact Hp0|].
           eapply runs_to_trans; [exact Hd|].
           eapply rt_pos; [eapply run_ph; [exact B6|exact Hp0]|lia|lia].
@@ -2289,7 +2288,10 @@ Proof.
       * eapply ok_fail_step. exact St.
       * destruct (iterable it) eqn:Eit.
         -- eapply ok_step; [exact St|]. eapply ok_ip; [|exact HL0].
-           exact (Loop f (le_n f) it 0 (mkM s (env_push (menv m1)) (trace m1) (polls m1)) Hpm1).
+           refine (Loop f (le_n f) (mkM (VIter it 0 :: s) (env_push (menv m1) (lenN (it :: s))) (trace m1) (polls m1))
+                        it 0 s Hpm1 _).
+           unfold drop_residue, env_mark. cbn [env_push scopes menv stk].
+           change (lenN (it :: s)) with (lenN (VIter it 0 :: s)). apply keep_bottom_all.
         -- eapply ok_fail_step. exact St.
 Qed.
 
